@@ -40,6 +40,11 @@ import (
 	gatewayapp "github.com/kubewharf/kubegateway/cmd/kube-gateway/app"
 	proxyv1alpha1 "github.com/kubewharf/kubegateway/pkg/apis/proxy/v1alpha1"
 	gatewayinformers "github.com/kubewharf/kubegateway/pkg/client/informers"
+	tokenwebhook "github.com/kubewharf/kubegateway/pkg/gateway/authentication/token/webhook"
+	authzwebhook "github.com/kubewharf/kubegateway/pkg/gateway/authorization/webhook"
+	authenticationv1 "k8s.io/api/authentication/v1"
+	authorizationv1 "k8s.io/api/authorization/v1"
+	"k8s.io/apiserver/pkg/authentication/request/bearertoken"
 	"k8s.io/apimachinery/pkg/watch"
 	k8stesting "k8s.io/client-go/testing"
 	gatewayfake "github.com/kubewharf/kubegateway/pkg/client/kubernetes/fake"
@@ -124,6 +129,8 @@ type step struct {
 	N        int          `json:"n,omitempty"`        // pops: number of picks
 	G        int          `json:"g,omitempty"`        // pops: concurrent pickers; slots: the limit expected (stop re-measuring when reached)
 	How      string       `json:"how,omitempty"`      // finish: go | cancel
+	H        string       `json:"h,omitempty"`        // own: abstract host
+	C        int          `json:"c,omitempty"`        // own: the stub whose cluster now owns it (-1: nobody)
 	Resource string       `json:"resource,omitempty"` // pops: resource of the probe request attributes
 }
 type scenario struct {
@@ -133,6 +140,12 @@ type scenario struct {
 	Authz    []authzRule         `json:"authz"`
 	AuthzDefault string          `json:"authzDefault"`
 	Steps    []step              `json:"steps"`
+	// WebhookAuth: authentication and impersonation authorization are the gateway's REAL multi-cluster webhooks (TokenReview /
+	// SubjectAccessReview sent through the real cluster manager's ClientFor to the request's own cluster); the stubs answer the reviews:
+	// every stub authenticates any token as "user-of-stub<idx>" and allows every access review, naming itself
+	WebhookAuth bool `json:"webhookAuth,omitempty"`
+	TTLOkMs     int  `json:"ttlOkMs,omitempty"`
+	TTLFailMs   int  `json:"ttlFailMs,omitempty"`
 }
 
 type ev map[string]interface{}
@@ -189,6 +202,28 @@ func (s *stub) ServeHTTP(rw http.ResponseWriter, r *http.Request) {
 		default:
 			rw.WriteHeader(200)
 			rw.Write([]byte("ok"))
+		}
+		return
+	}
+	if strings.HasSuffix(r.URL.Path, "/tokenreviews") || strings.HasSuffix(r.URL.Path, "/subjectaccessreviews") {
+		body, _ := io.ReadAll(r.Body)
+		rw.Header().Set("Content-Type", "application/json")
+		if strings.HasSuffix(r.URL.Path, "/tokenreviews") {
+			var tr authenticationv1.TokenReview
+			json.Unmarshal(body, &tr)
+			w.add(ev{"k": "review", "kind": "authn", "stub": s.idx, "key": tr.Spec.Token})
+			tr.Status = authenticationv1.TokenReviewStatus{Authenticated: true, User: authenticationv1.UserInfo{Username: fmt.Sprintf("user-of-stub%d", s.idx), Groups: []string{"system:authenticated"}}}
+			b, _ := json.Marshal(tr)
+			rw.WriteHeader(201)
+			rw.Write(b)
+		} else {
+			var sar authorizationv1.SubjectAccessReview
+			json.Unmarshal(body, &sar)
+			w.add(ev{"k": "review", "kind": "authz", "stub": s.idx, "key": sar.Spec.User})
+			sar.Status = authorizationv1.SubjectAccessReviewStatus{Allowed: true, Reason: fmt.Sprintf("allowed by stub%d", s.idx)}
+			b, _ := json.Marshal(sar)
+			rw.WriteHeader(201)
+			rw.Write(b)
 		}
 		return
 	}
@@ -560,6 +595,10 @@ func runScenario(t *testing.T, sc scenario) []ev {
 	}
 	cfg.Authentication.Authenticator = authn
 	cfg.Authorization.Authorizer = authz
+	if sc.WebhookAuth {
+		cfg.Authentication.Authenticator = bearertoken.New(tokenwebhook.NewMultiClusterTokenReviewAuthenticator(w.ctrl, time.Duration(sc.TTLOkMs)*time.Millisecond, time.Duration(sc.TTLFailMs)*time.Millisecond, nil))
+		cfg.Authorization.Authorizer = authzwebhook.NewMultiClusterSubjectAccessReviewAuthorizer(w.ctrl, time.Duration(sc.TTLOkMs)*time.Millisecond, time.Duration(sc.TTLFailMs)*time.Millisecond)
+	}
 	notProxied := http.HandlerFunc(func(rw http.ResponseWriter, r *http.Request) { rw.WriteHeader(404) })
 	handler := gatewayapp.VerifBuildProxyHandlerChain(w.ctrl, false)(notProxied, cfg)
 	w.front = httptest.NewUnstartedServer(handler)
@@ -952,6 +991,8 @@ func runScenario(t *testing.T, sc scenario) []ev {
 					w.add(ev{"k": "hung", "id": id})
 				}
 			}
+		case "own": // a marker for the trace: which cluster a moving server name belongs to from here on
+			w.add(ev{"k": "own", "h": s.H, "c": s.C})
 		case "poke":
 			w.poke()
 		case "sleep":
